@@ -295,8 +295,8 @@ def set_snr_then_get_snr(X, N, snr, axis, inplace, pass_current):
     if not np.all(np.abs(got - snr) <= 1e-9 * (1 + abs(snr))):
         return Fail('snr-not-reached', f'get_snr after set_snr(snr={snr}, axis={axis}) = {got.ravel()[:4].tolist()}')
     # get_snr itself: 10 log10 of the ratio of the mean powers
-    px = np.mean(np.abs(X) ** 2, axis=axis)
-    pn = np.mean(np.abs(N0) ** 2, axis=axis)
+    px = np.mean(np.abs(np.asarray(X, dtype=np.result_type(X, np.float64))) ** 2, axis=axis)
+    pn = np.mean(np.abs(np.asarray(N0, dtype=np.result_type(N0, np.float64))) ** 2, axis=axis)
     g0 = np.asarray(sx.get_snr(X, N0, axis=axis))
     if not np.all(np.abs(g0 - 10 * np.log10(px / pn)) <= 1e-9 * (1 + np.abs(g0))):
         return Fail('get-snr-definition', 'get_snr differs from 10 log10(mean |X|^2 / mean |N|^2)')
@@ -339,6 +339,16 @@ def gen_images(rng, K, D, T):
 RETURN_DICTS = [False, True, 'prefix_', 'input_', 'x']
 
 
+def _as_pcm(rng, *arrays):
+    """the same real signals as 16-bit PCM samples (what scipy.io.wavfile.read returns): a common gain puts the largest
+    sample at 3000..30000, then rounding to int16"""
+    out = []
+    for a in arrays:        # every signal at its own recording gain, so that none of them rounds to silence
+        g = float(rng.uniform(3000, 30000)) / (float(np.max(np.abs(a))) or 1.0)
+        out.append(np.round(a * g).astype(np.int16))
+    return out
+
+
 def search(ctx):
     rng = ctx.rng
     # return_dict decision logic: full option matrix for both functions (detects the fixed defect 9a096bd)
@@ -377,6 +387,9 @@ def search(ctx):
         avs, avc = bool(rng.random() < 0.5), bool(rng.random() < 0.5)
         rd = RETURN_DICTS[int(rng.integers(len(RETURN_DICTS)))]
         ctx.count(f'search-input_sxr-K{K}-avs{int(avs)}-avc{int(avc)}-rd{rd!r}')
+        if rng.random() < 0.15:
+            images, noise = _as_pcm(rng, images, noise)
+            ctx.count('search-input_sxr-int16')
         ok = ctx.run(input_sxr_identities, images=images, noise=noise, average_sources=avs, average_channels=avc,
                      return_dict=rd, c=gen_scale(rng))
         if i == 0:
@@ -395,6 +408,9 @@ def search(ctx):
         avs = bool(rng.random() < 0.5)
         rd = RETURN_DICTS[int(rng.integers(len(RETURN_DICTS)))]
         ctx.count(f'search-output_sxr-Ks{Ks}-Kt{Kt}-avs{int(avs)}-rd{rd!r}')
+        if rng.random() < 0.15:
+            ic, nc = _as_pcm(rng, ic, nc)
+            ctx.count('search-output_sxr-int16')
         ok = ctx.run(output_sxr_identities, image_contribution=ic, noise_contribution=nc, average_sources=avs,
                      return_dict=rd, c=gen_scale(rng), all_permutations=True)
         if i == 0:
@@ -412,8 +428,12 @@ def search(ctx):
         if axis is not None and shape[axis] < 2:
             axis = -1
         ctx.count(f'search-set_snr-axis{"None" if axis is None else "int"}-{"complex" if cplx else "real"}')
+        inplace = bool(rng.random() < 0.5)
+        if not cplx and not inplace and rng.random() < 0.2:
+            X, N = _as_pcm(rng, X, N)      # (in-place scaling of an integer array is rejected by NumPy itself)
+            ctx.count('search-set_snr-int16')
         ctx.run(set_snr_then_get_snr, X=X, N=N, snr=float(rng.uniform(-40, 40)), axis=axis,
-                inplace=bool(rng.random() < 0.5), pass_current=bool(rng.random() < 0.3))
+                inplace=inplace, pass_current=bool(rng.random() < 0.3))
 
 
 # ============================================================================= correspondence
